@@ -150,7 +150,16 @@ ControlFails(r, ep, j, X, pwmF, dt) ==
                ELSE IF arb.t = "conflict" THEN Failing({ <<"ArbConflictMustRaise", c.raised = "ValueError">> })
                ELSE Failing({ <<"ArbNoSpuriousError", c.raised = "">>,
                               <<"ArbDutyCycle", c.raised = "" => (RIsNum(c.pwm) /\ REq(c.pwm, arb.v))>>,
-                              <<"ArbRecordedDutyCycle", (c.raised = "" /\ X.pwm # SNull) => REq(X.pwm, c.pwm)>> }))
+                              <<"ArbRecordedDutyCycle", (c.raised = "" /\ X.pwm # SNull) => REq(X.pwm, c.pwm)>>,
+                              \* "applicable" is what the rules' documentation says, not what the rule objects answered: where every
+                              \* rule's documented proposal at this instant is a single value, the duty cycle is the arbitration of those
+                              <<"ArbDutyCycleOfDocumentedRules",
+                                  LET al(idx) == RuleAllowed(rules[idx], X, ep, j, dt)
+                                      derivable == \A idx \in 1..Len(rules) : Cardinality(al(idx)) = 1 /\ al(idx) \cap {"any", "raise", "slc"} = {} IN
+                                  (derivable /\ c.raised = "" /\ RIsNum(c.pwm)) =>
+                                     LET dp == [idx \in 1..Len(rules) |-> CHOOSE a \in al(idx) : TRUE] IN
+                                     IF ~(\A idx \in 1..Len(rules) : dp[idx] = CNull \/ RIsNum(dp[idx])) THEN TRUE
+                                     ELSE LET ad == Arbitrate(dp) IN ad.t = "pwm" => Cl(c.pwm, ad.v, Eps, "2")>> }))
 
 (* ---- C16: the stop condition ---- *)
 StopOf(r) == Tr.stops[r.stop]
